@@ -75,7 +75,18 @@ func opBmat(a []string) string {
 	return hashRows(m)
 }
 
+// msub <n> <seed> <r0> <c0> <r1> <c1>: the package's matrix.SubMatrix on a window of a seeded n x n matrix
+func opMsub(a []string) string {
+	n, seed := atoi(a[0]), atou(a[1])
+	sub, err := rs.VerifSubMatrix(minvMatrix(n, seed, "rand"), atoi(a[2]), atoi(a[3]), atoi(a[4]), atoi(a[5]))
+	if err != nil {
+		return "err " + errClass(err)
+	}
+	return hashRows(sub)
+}
+
 func init() {
+	extraOps["msub"] = opMsub
 	extraOps["minv"] = opMinv
 	extraOps["bmat"] = opBmat
 }
